@@ -241,6 +241,13 @@ class ContractDB:
                     self.assumptions.append(c.args[0].value)
                 elif n == "load_class":
                     self.load_classes.append(c.args[0].value)
+                elif n == "pure_external_method":
+                    # a method of an object from outside the repository whose result is a FUNCTION of the receiver (and arguments): e.g. the
+                    # result() / exception() of a Future that is done.  Calls are not logged; the result is typed by `returns`
+                    kw = {k.arg: k.value for k in c.keywords}
+                    from . import models as _m
+                    self.externals[c.args[0].value] = _m.make_pure_method(c.args[0].value, kw.get("returns"))
+                    self.assumptions.append(f"external method {c.args[0].value} is a pure function of its receiver (assumed of the dependency)")
                 elif n == "codec_pair":
                     kw = {k.arg: k.value.value for k in c.keywords}
                     from . import models as _m
